@@ -140,6 +140,7 @@ harnesses! {
     }
     /// G6 (C10, known finding F4): an OPRF element with the SEC1 compact tag 0x05 in a RegistrationRequest (voprf's NIST element
     /// decoder = `PublicKey::from_sec1_bytes`): accepted and re-encoded with tag 0x02/0x03 — a second encoding of one message
+    #[cfg_attr(kani, kani::stub(subtle::black_box, crate::verif_kani::vk::identity_bb))]
     fn g6_p256_oprf_elem_compact_tag [unwind = 70] {
         let b = pk_with_tag(5);
         match opaque_ke::RegistrationRequest::<P256Suite>::deserialize(&b) {
@@ -153,6 +154,7 @@ harnesses! {
     }
 
     /// G6 (C10/C11): OPRF element tags 0 (identity) and 4 (uncompressed, 33 bytes) are refused; 2 / 3 decode and re-encode to the input
+    #[cfg_attr(kani, kani::stub(subtle::black_box, crate::verif_kani::vk::identity_bb))]
     fn g6_p256_oprf_elem_other_tags [unwind = 70] {
         let tags = [0u8, 2, 3, 4];
         let mut i = 0;
